@@ -357,7 +357,7 @@ func format(n *Node, sb *strings.Builder, l Layout, depth int) {
 		for i, e := range n.Elems {
 			if i > 0 {
 				sb.WriteByte(',')
-				if l.SpaceAfterComma && !l.Multiline {
+				if l.SpaceAfterComma { // also before the line break under Multiline
 					sb.WriteByte(' ')
 				}
 			}
@@ -375,7 +375,7 @@ func format(n *Node, sb *strings.Builder, l Layout, depth int) {
 		for i, m := range n.Members {
 			if i > 0 {
 				sb.WriteByte(',')
-				if l.SpaceAfterComma && !l.Multiline {
+				if l.SpaceAfterComma { // also before the line break under Multiline
 					sb.WriteByte(' ')
 				}
 			}
